@@ -36,7 +36,7 @@ let clamp (k : kind) (ts_class : bool) (x : int64) : int64 =
   match k with
   | KD | KI64 -> x
   | KI32 -> Int64.of_int32 (Int64.to_int32 x)
-  | KB -> Int64.logand x 1L
+  | KB -> Int64.sub (Int64.logand x 3L) 1L   (* later samples of a boolean series: -1, 0, 1, 2 (a foreign encoder may write any value; anything but 0 is true) *)
   | KDate -> Int64.rem x date_lim
   | KTsT -> if ts_class then Int64.logand x 0xFFFFFFFFL else 0L
   | KTsI -> Int64.logand x 0xFFFFFFFFL
@@ -50,7 +50,7 @@ let random_value (k : kind) (ts_class : bool) : int64 =
   clamp k ts_class raw
 
 (* ---- reference documents ---- *)
-let key_pool = [| "a"; "b"; "c"; "x"; "y"; "ts"; "n"; "ops"; "val"; "k0"; "long_key_name"; "_u"; "A"; "0"; "17" |]
+let key_pool = [| "a"; "b"; "c"; "x"; "y"; "ts"; "n"; "ops"; "val"; "k0"; "long_key_name"; "_u"; "A"; "0"; "17"; "" |]
 let bs = bytes_of_string
 
 let non_metric_leaf () : value =
